@@ -39,6 +39,13 @@ def mapFn (k : Nat) : Elem → Elem
   | .p a c n => if k = 0 then .int a else .str c n
   | .lit s => .lit s
 
+/-- where, relative to the iteration, the mutation of an `Op.iter` sits -/
+inductive When where
+  | at (j : Nat)          -- inside the loop body, at step `j` (never reached when `j ≥ size`)
+  | after                 -- after the loop has ended
+  | breakAt (j : Nat)     -- the loop `break`s at step `j`; the mutation follows the loop
+  deriving DecidableEq, Repr
+
 inductive Op where
   -- arrays
   | append (x : Elem) | appendAll (xs : List Elem) | insert (i : Int) (x : Elem) | remove (i : Int)
@@ -49,12 +56,18 @@ inductive Op where
   -- dictionaries
   | dInsert (k v : Elem) | dRemove (k : Elem) | dRead (k : Elem) | dWrite (k : Elem) (v : Option Elem)
   | dKeys | dValues | dHas (k : Elem) | dForEach | dForEachStop (j : Nat) | dIterate
+  -- both: an iteration over the container (`outer`: 0 `for … in c`, 1 `c.map` / `c.forEachKey`) whose body
+  -- first runs a nested iteration over the same container (`nest`: 0 none, 1 a `for` loop that ends, 2 a
+  -- `filter` / `forEachKey` that ends, 3 a `for` loop with the mutation inside it) and then, as `w` says,
+  -- the mutation `m` (one of append / insert / remove / removeFirst / removeLast / write / dInsert / dRemove / dWrite)
+  | iter (outer nest : Nat) (w : When) (m : Op)
   deriving DecidableEq, Repr
 
 inductive Obs where
   | nat (n : Nat) | elem (e : Elem) | optElem (o : Option Elem) | list (xs : List Elem)
   | optList (o : Option (List Elem)) | bool (b : Bool) | optNat (o : Option Nat)
   | bag (xs : List Elem)               -- enumeration of a dictionary: compared as a multiset
+  | steps (n len : Nat)                -- `Op.iter`: completed steps of the outer iteration, length afterwards
   deriving DecidableEq, Repr
 
 inductive Cont where
@@ -107,11 +120,47 @@ def dictStep (d : Dict Elem Elem) : Op → Option (Dict Elem Elem × Obs)
   | .length => some (d, .nat d.length)
   | _ => none
 
+/-- the operations that mutate the container in place (the ones `Op.iter` may carry) -/
+def isMutation : Op → Bool
+  | .append _ | .insert .. | .remove _ | .removeFirst | .removeLast | .write .. => true
+  | .dInsert .. | .dRemove _ | .dWrite .. => true
+  | _ => false
+
+/-- the unguarded mutation, as a function on the container (`none`: wrong kind / not a mutation) -/
+def applyMut (c : Cont) (m : Op) : Option (Except Err Cont) :=
+  if !isMutation m then none else
+  match c with
+  | .arr xs => (arrStep xs m).map fun r => r.map fun p => .arr p.1
+  | .dict d => (dictStep d m).map fun p => .ok (.dict p.1)
+
+/-- total version for `runProg` (only used on well-kinded mutations) -/
+def applyMutT (c : Cont) (m : Op) : Except Err Cont := (applyMut c m).getD (.ok c)
+
+/-- the program of an `Op.iter` (see `Verif.Spec.Containers.Prog`) -/
+def iterProg (nest : Nat) (w : When) (m : Op) : Prog Op :=
+  let inner : Prog Op := if nest = 1 ∨ nest = 2 then .iter 0 .skip else .skip
+  match w with
+  | .at j => if nest = 3 then .iter j (.iter 0 (.mutate m)) else .iter j (.seq inner (.mutate m))
+  | .after => .seq (.iter 0 inner) (.mutate m)
+  | .breakAt j => .seq (.iter j inner) (.mutate m)
+
+/-- outer steps completed when the operation ends normally -/
+def iterSteps (n : Nat) : When → Nat
+  | .at _ | .after => n
+  | .breakAt j => min j n
+
+def iterStep (c : Cont) (nest : Nat) (w : When) (m : Op) : Option (Except Err (Cont × Obs)) :=
+  match applyMut c m with
+  | none => none
+  | some _ =>
+    some ((runProg applyMutT size 0 c (iterProg nest w m)).map fun c' => (c', .steps (iterSteps (size c) w) (size c')))
+
 /-- One operation.  An operation of the wrong container kind is outside the machine (`none`). -/
 def step (c : Cont) (op : Op) : Option (Except Err (Cont × Obs)) :=
-  match c with
-  | .arr xs => (arrStep xs op).map fun r => r.map fun p => (.arr p.1, p.2)
-  | .dict d => (dictStep d op).map fun p => .ok (.dict p.1, p.2)
+  match c, op with
+  | c, .iter _ nest w m => iterStep c nest w m
+  | .arr xs, op => (arrStep xs op).map fun r => r.map fun p => (.arr p.1, p.2)
+  | .dict d, op => (dictStep d op).map fun p => .ok (.dict p.1, p.2)
 
 /-- total step for the transaction machine: an operation outside the machine leaves everything as it is
     (the driver rejects such lines before running the machine) -/
